@@ -24,6 +24,8 @@ type Conf struct {
 	N   int           `flag:"n,3,an int"`
 	S   string        `flag:"s,dflt,a string"`
 	D   time.Duration `flag:"d,1m,a duration"`
+	U   uint64        `flag:"u64,7,an unsigned"`
+	V   int           `flag:"verbosity,0,the longest flag name of the set"`
 	Sub struct {
 		X int64 `flag:"|sub|9|a nested int"`
 	}
@@ -31,6 +33,7 @@ type Conf struct {
 
 var tokens = []string{
 	"-b", "-b=false", "-b=", "-n=5", "--n=7", "-n", "-s", "-s=a=b", "-s=-x", "--help", "-d=2s", "-sub=4",
+	"-u64=18446744073709551615", "-u64=-1", "--verbosity=2", "-verbosity",
 	"-", "--", "---s", "-=", "-x=", "--=v", "-n=x", "-b=maybe",
 	"-u", "-u=1",
 	"5", "x", "true", "", "\xff-",
@@ -45,11 +48,11 @@ type refResult struct {
 	rest []string
 }
 
-var flagKinds = map[string]string{"b": "bool", "n": "int", "s": "string", "d": "duration", "sub": "int64", "help": "bool", "config": "string"}
+var flagKinds = map[string]string{"b": "bool", "n": "int", "s": "string", "d": "duration", "sub": "int64", "u64": "uint64", "verbosity": "int", "help": "bool", "config": "string"}
 
 func reference(argv []string) refResult {
 	var r refResult
-	r.conf.N, r.conf.S, r.conf.D, r.conf.Sub.X = 3, "dflt", time.Minute, 9
+	r.conf.N, r.conf.S, r.conf.D, r.conf.Sub.X, r.conf.U = 3, "dflt", time.Minute, 9, 7
 	assigned := map[string]string{}
 	i := 0
 	for i < len(argv) {
@@ -112,6 +115,18 @@ func reference(argv []string) refResult {
 				v, err = strconv.ParseInt(val, 0, 64)
 			}
 			r.conf.N = int(v)
+		case "u64":
+			var v uint64
+			if val != "" {
+				v, err = strconv.ParseUint(val, 0, 64)
+			}
+			r.conf.U = v
+		case "verbosity":
+			var v int64
+			if val != "" {
+				v, err = strconv.ParseInt(val, 0, 64)
+			}
+			r.conf.V = int(v)
 		case "sub":
 			var v int64
 			if val != "" {
@@ -173,7 +188,7 @@ func judge(argv []string, st *stats) {
 		if len(st.Viols) < 5 {
 			st.Viols = append(st.Viols, vcommon.Violation{Scenario: "argv", Fingerprint: fmt.Sprintf("%q", argv),
 				Message: fmt.Sprintf("C10: Parse(%q): %s", argv, msg), Witness: map[string]any{"argv": argv},
-				ReplayGo: fmt.Sprintf("// cfg as in checks/c10: fields b,n,s,d,sub\nfs, _ := config.NewFlagSet(&cfg)\nerr := fs.Parse(%#v)\n", argv)})
+				ReplayGo: fmt.Sprintf("// cfg as in checks/c10: fields b,n,s,d,u64,verbosity,sub\nfs, _ := config.NewFlagSet(&cfg)\nerr := fs.Parse(%#v)\n", argv)})
 		}
 	}
 	if p != nil {
@@ -223,7 +238,7 @@ func main() {
 	}
 	maxLen := 4
 	if vcommon.Thorough() {
-		maxLen = 6
+		maxLen = 5
 	}
 	if i, n, worker := vcommon.ShardSpec(); worker {
 		st := &stats{Distinct: map[string]bool{}}
